@@ -122,6 +122,8 @@ func (v *c11V) key() string {
 		s = "funclit@" + strconv.Itoa(int(v.node.Pos()))
 	case "func":
 		s = "func " + v.fn.FullName()
+	case "list":
+		s = "list[" + ks(v.xs) + "]"
 	case "lit":
 		s = "lit " + types.TypeString(v.typ, nil) + "{" + ks(v.xs) + "}"
 	default:
